@@ -13,7 +13,12 @@ from jaqalpaq.core.block import BlockStatement, LoopStatement
 from jaqalpaq.core.gatedef import GateStatement
 from jaqalpaq.core.macro import Macro
 from jaqalpaq.core.register import Register, NamedQubit
-from jaqalpaq.core.parameter import AnnotatedValue, Parameter, ParamType
+from jaqalpaq.core.parameter import (
+    AnnotatedValue,
+    Parameter,
+    ParamType,
+    make_item_name,
+)
 
 
 def expand_macros(circuit, preserve_definitions=False):
@@ -178,6 +183,9 @@ class GateReplacer(Visitor):
         alias_index = filter_float(self.visit(qubit.alias_index))
         if not isinstance(alias_from, (Register, Parameter)):
             raise JaqalError(f"Cannot index {alias_from}: it is not a register")
+        if qubit.name != make_item_name(qubit.alias_from, qubit.alias_index):
+            # A qubit alias declared by a map statement keeps its name
+            return NamedQubit(qubit.name, alias_from, alias_index)
         return alias_from[alias_index]
 
 
